@@ -205,6 +205,91 @@ def to_model(x):
     raise ValueError('bad expression encoding: %r' % (x,))
 
 
+def is_re_compile_call(x):
+    return x[0] == 11 and x[1] == [2, [1, 're'], 'compile']
+
+
+def re_oracle(expr):
+    """For a call to re.compile displayed on its own: what the regex colouriser (an oracle of the Coq model) does with the
+    bound pattern: {"pieces": [[text, kind], ..]} = the _output calls of _colorize_re_pattern, {"raised": ..} = it raised
+    ValueError / sre error, {} = not reached (arguments do not bind, pattern not a str/bytes constant, or multi-line)."""
+    from pydoctor.epydoc.markup import _pyval_repr as R
+    from pydoctor.epydoc import sre_constants36
+    from pydoctor.astutils import bind_args
+    node = build(expr)
+    try:
+        args = bind_args(R.PyvalColorizer.RE_COMPILE_SIGNATURE, node)
+    except TypeError:
+        return {}
+    pn = args.arguments['pattern']
+    if not isinstance(pn, ast.Constant) or not isinstance(pn.value, (str, bytes)):
+        return {}
+    pat = pn.value
+    if (b'\n' if isinstance(pat, bytes) else '\n') in pat:
+        return {}
+    col = R.PyvalColorizer(linelen=None, maxlines=0, linebreakok=False)
+    state = R._ColorizerState()
+    state.linebreakok = False
+    log = []
+    orig = col._output
+
+    def rec(s_, css_class, state_, link=False):
+        t = R.decode_with_backslashreplace(s_) if isinstance(s_, bytes) else s_
+        log.append([t, {None: 0, 'variable-quote': 1}.get(css_class, 9)])
+        return orig(s_, css_class, state_, link)
+    col._output = rec
+    try:
+        col._colorize_re_pattern_str(pat, state)
+    except (ValueError, sre_constants36.error) as e:
+        return {'raised': str(e)}
+    return {'pieces': log}
+
+
+def re_meaning(expr, text):
+    """The property for a displayed re.compile call: same function, same regular expression (compared as parsed by the
+    standard library), same flags argument, same ** unpackings; None = holds."""
+    import inspect
+    import re
+    src = build(expr)
+    try:
+        shown = ast.parse(text, mode='eval').body
+    except Exception:  # noqa
+        return 'meaning: the displayed text %r is not a Python expression' % (text[:200],)
+    if not isinstance(shown, ast.Call) or ast.dump(shown.func) != ast.dump(src.func):
+        return 'meaning: the displayed text %r is not a call of the same function' % (text[:200],)
+    sig = inspect.signature(re.compile)
+
+    def bound(call):
+        kw = {k.arg: k.value for k in call.keywords if k.arg is not None}
+        try:
+            return sig.bind(*call.args, **kw).arguments
+        except TypeError:
+            return None
+    a, b = bound(src), bound(shown)
+    stars = lambda call: [ast.dump(k.value) for k in call.keywords if k.arg is None]
+    if a is None or b is None:
+        return None if norm_dump(src) == norm_dump(shown) else 'meaning: the displayed text %r reads back as a different call' % (text[:200],)
+    if stars(src) != stars(shown):
+        return 'meaning: the displayed text %r lost a ** argument of the call' % (text[:200],)
+    if ('flags' in a) != ('flags' in b) or ('flags' in a and norm_dump(a['flags']) != norm_dump(b['flags'])):
+        return 'meaning: the displayed text %r has a different flags argument' % (text[:200],)
+    pa, pb = a['pattern'], b['pattern']
+    if isinstance(pa, ast.Constant) and isinstance(pb, ast.Constant) and isinstance(pa.value, (str, bytes)) \
+            and type(pa.value) is type(pb.value):
+        try:
+            ta = re._parser.parse(pa.value)
+        except Exception:  # noqa
+            return None            # the source pattern is not a regular expression for this Python: nothing to compare
+        try:
+            tb = re._parser.parse(pb.value)
+        except Exception:  # noqa
+            return 'meaning: the displayed pattern %r is not a regular expression' % (text[:200],)
+        U = re.UNICODE.value
+        same = repr(ta) == repr(tb) and (ta.state.flags | U) == (tb.state.flags | U)
+        return None if same else 'meaning: the displayed pattern %r is a different regular expression' % (text[:200],)
+    return None if norm_dump(pa) == norm_dump(pb) else 'meaning: the displayed text %r has a different pattern argument' % (text[:200],)
+
+
 def classify(n, C, nodes_mod, wbr_cls, ref_cls):
     if n is C.LINEWRAP:
         return [6, n.astext()]
@@ -264,6 +349,11 @@ def colorize_cases(cases):
         except Exception as e:  # noqa
             obs = {'error': 'colorize: %s: %s' % (type(e).__name__, e)}
         obs['mexpr'] = mexpr
+        if is_re_compile_call(expr):
+            try:
+                obs['re'] = re_oracle(expr)
+            except Exception as e:  # noqa
+                obs['re'] = {'error': '%s: %s' % (type(e).__name__, e)}
         obs['canon'] = canon
         obs['dump'] = dump
         # _trim_result may write into the shared class-level LINEWRAP node; detect and repair so later cases are unaffected
@@ -286,6 +376,26 @@ def py_tokens(text):
         return [t.string for t in tokenize.generate_tokens(io.StringIO(text).readline) if t.type not in skip]
     except Exception:  # noqa
         return None
+
+
+def py_tokens_lenient(text):
+    """Like py_tokens, but unbalanced brackets (which tokenize reports at the end of the text, after all tokens) are not an
+    error of the lexical analysis."""
+    import io
+    import tokenize
+    skip = (tokenize.NEWLINE, tokenize.NL, tokenize.ENDMARKER, tokenize.INDENT, tokenize.DEDENT, tokenize.COMMENT)
+    got = []
+    try:
+        for t in tokenize.generate_tokens(io.StringIO(text).readline):
+            if t.type not in skip:
+                got.append(t.string)
+    except tokenize.TokenError as e:
+        if 'EOF in multi-line' in str(e.args[0]):
+            return got
+        return None
+    except Exception:  # noqa
+        return None
+    return got
 
 
 def unbuild(n):
@@ -335,11 +445,19 @@ def unbuild(n):
 
 
 def parse_texts(texts):
-    """Each request is "d<text>" (answer: normalised ast.dump or null) or "t<text>" (answer: tree in the wire encoding,
-    null when CPython rejects the text, "?" when the tree uses a form the spec reader does not know)."""
+    """Each request is "d<text>" (answer: normalised ast.dump or null), "t<text>" (answer: tree in the wire encoding,
+    null when CPython rejects the text, "?" when the tree uses a form the spec reader does not know) or "k<text>"
+    (answer: CPython's token strings, or null)."""
     out = []
     for req in texts:
         kind, t = req[0], req[1:]
+        if kind == 'k':
+            out.append(py_tokens_lenient(t))
+            continue
+        if kind == 'r':
+            expr, text = json.loads(t)
+            out.append(re_meaning(expr, text))
+            continue
         try:
             tree = ast.parse(t, mode='eval').body
         except Exception:  # noqa
